@@ -6,13 +6,13 @@ use crypto_bigint::{BoxedUint, Wrapping};
 use vmodel::gen;
 use vmodel::*;
 
-fn ops_value(a: &[u64], b: &[u64]) -> (Vec<u64>, Vec<u64>, Vec<u64>) {
+pub(crate) fn ops_value(a: &[u64], b: &[u64]) -> (Vec<u64>, Vec<u64>, Vec<u64>) {
     let n = a.len().max(b.len());
     let g = |v: &[u64], i: usize| v.get(i).copied().unwrap_or(0);
     ((0..n).map(|i| g(a, i) & g(b, i)).collect(), (0..n).map(|i| g(a, i) | g(b, i)).collect(), (0..n).map(|i| g(a, i) ^ g(b, i)).collect())
 }
 
-fn same_value(got: &BoxedUint, want: &[u64]) -> bool {
+pub(crate) fn same_value(got: &BoxedUint, want: &[u64]) -> bool {
     big(got.as_words()) == big(want)
 }
 
